@@ -53,6 +53,12 @@ func (Engine) Generate(cfg simkit.RunConfig) (any, bool) {
 		return genLocks(cfg, "R"), true
 	case "raw":
 		return genRaw(cfg), true
+	case "catalogue":
+		// complete enumeration, one evaluation (see catalogue.go)
+		if cfg.Index > 0 {
+			return nil, false
+		}
+		return &Scenario{Kind: "catalogue"}, true
 	case "revunb", "revunb-R":
 		// demonstration of known finding F1 under a keyspace: unbounded reverse scans in every layout
 		b := "M"
@@ -95,6 +101,11 @@ const writerGrace = 240 * time.Second
 // Execute implements simkit.Engine.
 func (Engine) Execute(t *testing.T, cfg simkit.RunConfig, scenario any) *simkit.RunResult {
 	sc := scenario.(*Scenario)
+	if sc.Kind == "catalogue" {
+		res := &simkit.RunResult{Stats: map[string]int{}, Nontrivial: true, SchedHash: "catalogue"}
+		res.Violations = append(runCatalogue(res), runCatalogueCodec(res)...)
+		return res
+	}
 	s := simkit.New(cfg.Seed)
 	s.Limits.MaxSimTime = 40 * time.Minute
 	res := &simkit.RunResult{}
